@@ -356,6 +356,10 @@ fn run_cli(op: &Value, file: &mut String, cfg: &Cfg, cli: Option<&str>, events: 
             body.push_str(t);
             body.push('\n');
         }
+        // "conf_final_newline": false - the last line of the file is not terminated
+        if op.get("conf_final_newline").and_then(|x| x.as_bool()) == Some(false) && body.ends_with('\n') {
+            body.pop();
+        }
         std::fs::write(&conf_path, body).unwrap();
         args.push("--removal-marker-target-config".into());
         args.push(conf_path.to_string_lossy().into());
